@@ -125,3 +125,71 @@ Proof. vm_compute. reflexivity. Qed.
 (* any first byte other than the two tags *)
 Example C12_bad_tag_panics : decode_page (ascii_of_N 2 :: repeat zero 4095) = Panic.
 Proof. vm_compute. reflexivity. Qed.
+
+(* ---- the oracle of the check (Spec/PageCodecSpec.v) and the theorems above ----
+   Every run of the check evaluates, on what the Go code returned for a generated node,
+   `pc_model_agrees` (Go's page bytes, the node decode returned, the node a cold fetch returned, or
+   the error / panic, equal what encode_node / decode_*_raw / decode_page_raw compute) and the
+   oracle `pc_spec_accepts` (on an unedited case: one page of pageSize bytes was written and both
+   read paths returned the same node if `admissible`, a node with the same logical view if only
+   `encodable`; it runs neither the model's encoder nor its decoder). Agreement with the model
+   implies acceptance, for every case - all nodes, all observations, no size bound, no hypothesis:
+   on conforming code the oracle cannot raise a false alarm, and a rejection of conforming code
+   would contradict C12_roundtrip / C12_through_file (admissible) or C12_logical (encodable). *)
+From Mkdb Require Import Spec.PageCodecSpec Proofs.PageCodecOracle.
+
+Theorem C12_agreement_implies_acceptance : forall c,
+  pc_model_agrees c = true -> pc_spec_accepts c = true.
+Proof. exact pc_agreement_implies_acceptance. Qed.
+Print Assumptions C12_agreement_implies_acceptance.
+
+(* file header cases: Go's 28 bytes and the header read back equal encode_header / decode_header
+   => the oracle (28 bytes, the same four fields back, for header_ok headers) accepts: C12_header *)
+Theorem C12_header_agreement_implies_acceptance : forall c,
+  hdr_model_agrees c = true -> hdr_spec_accepts c = true.
+Proof. exact hdr_agreement_implies_acceptance. Qed.
+Print Assumptions C12_header_agreement_implies_acceptance.
+
+(* non-vacuity: the model's own encode / decode / write+fetch of the full leaf, the full internal
+   node (both admissible: the `same_node` clause) and the left half of a split (encodable only:
+   the `same_logical` clause) are cases on which both functions are true and the oracle really
+   judges (unedited, one page, nodes returned by both read paths) *)
+Definition judged (c : pc_case) : bool :=
+  unedited c && one_page (pc_enc c) &&
+  match pc_dec c, pc_fetch c with DOk _, DOk _ => true | _, _ => false end.
+
+Example C12_agreement_nonvacuous :
+  forallb (fun n => let c := pc_self_case n in pc_model_agrees c && pc_spec_accepts c && judged c)
+          [full_leaf; full_internal; split_left] = true /\
+  map admissible [full_leaf; full_internal; split_left] = [true; true; false].
+Proof. vm_compute. split; reflexivity. Qed.
+
+(* ... and the oracle is not the constant true: the full leaf's page read back as another node, or
+   as the same node with two cells swapped in the slot array only (offsets unchanged, so the key
+   order differs), or a short page, is rejected (and then, by the theorem, is not what the model does) *)
+Definition with_dec (c : pc_case) (d : dec_obs) : pc_case :=
+  mkPC (pc_node c) (pc_raw c) (pc_patch c) (pc_trunc c) (pc_enc c) d (pc_fetch c).
+Definition with_enc (c : pc_case) (e : enc_obs) : pc_case :=
+  mkPC (pc_node c) (pc_raw c) (pc_patch c) (pc_trunc c) e (pc_dec c) (pc_fetch c).
+Definition swap_slots (o : dec_obs) : dec_obs :=
+  match o with
+  | DOk (RLeaf a b c d e f offs (x :: y :: r)) => DOk (RLeaf a b c d e f offs (y :: x :: r))
+  | o => o
+  end.
+
+Example C12_oracle_rejects :
+  let c := pc_self_case full_leaf in
+  map pc_spec_accepts [with_dec c (pc_dec (pc_self_case split_left)); with_dec c (swap_slots (pc_dec c));
+                       with_dec c (DErr XEof); with_dec c DPanic; with_enc c (EOk [Zr 4095]); with_enc c EPanic]
+    = [false; false; false; false; false; false] /\
+  map pc_model_agrees [with_dec c (pc_dec (pc_self_case split_left)); with_dec c (swap_slots (pc_dec c));
+                       with_dec c (DErr XEof); with_dec c DPanic; with_enc c (EOk [Zr 4095]); with_enc c EPanic]
+    = [false; false; false; false; false; false].
+Proof. vm_compute. split; reflexivity. Qed.
+
+Example C12_header_agreement_nonvacuous :
+  let c := hdr_self_case (mkHeader 4294967295 18446744073709551615 4096 77) in
+  hdr_model_agrees c = true /\ hdr_spec_accepts c = true /\ header_ok (hc_hdr c) = true /\
+  hdr_spec_accepts (mkHC (hc_hdr c) (hc_bytes c) (Some (mkHeader 4294967295 18446744073709551615 4096 78))) = false /\
+  hdr_spec_accepts (mkHC (hc_hdr c) (hc_bytes c ++ [Zr 1]) (hc_back c)) = false.
+Proof. vm_compute. repeat split; reflexivity. Qed.
